@@ -61,11 +61,12 @@ STALE = b"left behind by an earlier invocation\n"
 
 
 def run_keys(ctx, tr, d, s, k, via):
-    prefix = d / f"k{k}"
+    stem = f"k.v{k}" if s.get("dotted") else f"k{k}"   # a prefix whose last component contains a dot is a legal prefix
+    prefix = d / stem
     ok = True
     if s.get("stale"):   # history: both key files exist already
         for suffix in ("priv", "pub"):
-            (d / f"k{k}_{suffix}.{s['enc']}").write_bytes(STALE)
+            (d / f"{stem}_{suffix}.{s['enc']}").write_bytes(STALE)
     if via == "cli":
         p = subprocess.run(core.cli_cmd("keys", "--output-file", prefix, "--type", s["type"], "--encoding", s["enc"],
                                         "--private-format", s["privfmt"], "--public-format", s["pubfmt"]),
@@ -81,7 +82,7 @@ def run_keys(ctx, tr, d, s, k, via):
             if isinstance(e, (KeyboardInterrupt, MemoryError)):
                 raise
             ok = False
-    pf, qf = d / f"k{k}_priv.{s['enc']}", d / f"k{k}_pub.{s['enc']}"
+    pf, qf = d / f"{stem}_priv.{s['enc']}", d / f"{stem}_pub.{s['enc']}"
     for f_ in (pf, qf):
         if f_.exists() and f_.read_bytes() == STALE:
             f_.unlink()   # not written by this invocation
@@ -224,8 +225,10 @@ def run(ctx: core.Check):
     conv_s = [s for s in scns if s["kind"] == "convert"]
     edge_s = [s for s in scns if s["kind"] == "convertedge"]
     ctx.note(f"Use B/C: {len(keys_s)} keys scenarios")
+    ctx.rng.shuffle(keys_s)   # TLC's enumeration order is periodic: the modulo selectors below must not alias with it
     for k, s in enumerate(keys_s):
         s["stale"] = k % 3 == 1
+        s["dotted"] = k % 4 == 2
         run_keys(ctx, tr, d, s, k, "lib")
         if k % 6 == 0:
             run_keys(ctx, tr, d, s, 1000 + k, "cli")
